@@ -1,10 +1,20 @@
 import json,sys
 r=json.load(open(sys.argv[1]))
+n=int(sys.argv[2]) if len(sys.argv)>2 else 4
 print({k:r.get(k) for k in ['evaluations','distinct_nontrivial','model_requests','oracle_checks','wall_s','notes']})
 print('mismatches',len(r['mismatches']))
-for m in r['mismatches'][:int(sys.argv[2]) if len(sys.argv)>2 else 4]:
-    print(' REQ',m['request'][:200]); print('   impl ',m['impl'][:300]); print('   model',m['model'][:300]); print('   ctx',m.get('context',[])[-6:])
+def fd(a,b):
+    i=0
+    while i<len(a) and i<len(b) and a[i]==b[i]: i+=1
+    return i
+for m in r['mismatches'][:n]:
+    a,b=m['impl'],m['model']; i=fd(a,b)
+    print(' REQ',m['request'][:160]); print('   diff at',i); print('   impl  …'+a[max(0,i-90):i+110]); print('   model …'+b[max(0,i-90):i+110])
 print('oracle failures',len(r['oracle_failures']), 'known', r.get('known_hits'))
-for f in r['oracle_failures'][:int(sys.argv[2]) if len(sys.argv)>2 else 6]:
-    print(' ',f['what'],'| input',str(f['input'])[-300:],'| got',str(f.get('got'))[:200],'| want',str(f.get('want'))[:200])
-print(r['histogram'])
+seen={}
+for f in r['oracle_failures']:
+    seen.setdefault(f['what'][:70],[]).append(f)
+for w,fs in seen.items():
+    f=fs[0]
+    print(' ',len(fs),'x',f['what'],'| input',str(f['input'])[-260:],'| got',str(f.get('got'))[:220],'| want',str(f.get('want'))[:120])
+print({k:v for k,v in r['histogram'].items() if not k.startswith(('alias.','step.','plugins.','matrix.','top.'))})
